@@ -211,3 +211,72 @@ func HexChunks(chunks [][]byte, prefix string) string {
 	}
 	return strings.Join(sb, " ")
 }
+
+// Transfer is one sub-packaged message as a terminal sends it: N packets with the same id,
+// consecutive serials, total N, numbers 1..N.
+type Transfer struct {
+	ID      uint16
+	Ver2019 bool
+	Phone   []byte
+	Serial0 uint16 // serial of packet 1; packet k has Serial0+k-1
+	Bodies  [][]byte
+}
+
+// Packet returns the frame of packet number no (1-based) carrying Bodies[no-1].
+func (t Transfer) Packet(no int) FrameSpec {
+	return FrameSpec{ID: t.ID, Ver2019: t.Ver2019, Phone: t.Phone, Serial: t.Serial0 + uint16(no-1), Frag: true,
+		Sum: uint16(len(t.Bodies)), No: uint16(no), Body: t.Bodies[no-1]}
+}
+
+// Odd returns a sub-package of this transfer's id with an arbitrary (impossible) number.
+func (t Transfer) Odd(no int, body []byte) FrameSpec {
+	return FrameSpec{ID: t.ID, Ver2019: t.Ver2019, Phone: t.Phone, Serial: t.Serial0 + 1000, Frag: true,
+		Sum: uint16(len(t.Bodies)), No: uint16(no), Body: body}
+}
+
+func (t Transfer) Whole() []byte {
+	var b []byte
+	for _, x := range t.Bodies {
+		b = append(b, x...)
+	}
+	return b
+}
+
+// RandTransfer: n packets, bodies non-empty; style picks equal / unequal lengths and escape density.
+func RandTransfer(rng *rand.Rand, id uint16, n int, maxBody int) Transfer {
+	t := Transfer{ID: id, Ver2019: rng.Intn(2) == 0, Serial0: uint16(rng.Intn(65536))}
+	t.Phone = RandPhone(rng, t.Ver2019)
+	equal := rng.Intn(2) == 0
+	l0 := 1 + rng.Intn(maxBody)
+	for i := 0; i < n; i++ {
+		l := l0
+		if !equal {
+			l = 1 + rng.Intn(maxBody)
+		}
+		b := RandBody(rng, l)
+		if rng.Intn(3) == 0 { // escape-free, all equal content: makes aliasing of a shared buffer visible
+			for j := range b {
+				b[j] = byte(0x30 + i%10)
+			}
+		}
+		t.Bodies = append(t.Bodies, b)
+	}
+	return t
+}
+
+// Perms calls f with every permutation of a (in place; f must not keep the slice).
+func Perms(a []int, f func([]int)) {
+	var rec func(k int)
+	rec = func(k int) {
+		if k == len(a) {
+			f(a)
+			return
+		}
+		for i := k; i < len(a); i++ {
+			a[k], a[i] = a[i], a[k]
+			rec(k + 1)
+			a[k], a[i] = a[i], a[k]
+		}
+	}
+	rec(0)
+}
